@@ -70,6 +70,11 @@ func checkTerminators(r *core.Run, m *builderMatrix, rule string) {
 		n++
 		art := m.cell[t]["BuildArtificiallyEndContainer"]
 		ok := art == end || (strings.HasPrefix(end, "iface.BuildEndContainer(") && strings.HasPrefix(art, "iface.BuildArtificiallyEndContainer("))
+		// a pure wrapper (its regular end only delegates) holds no decoded part of its own: on a decoding error it may
+		// simply leave the stack (whether it may forward instead is C09.stacked-wrapper's question)
+		if strings.HasPrefix(end, "iface.BuildEndContainer(") && !strings.Contains(end, ";") && art == "ctx.UnstackThisBuilder($_this)" {
+			ok = true
+		}
 		r.Check(rule, "builder."+t+".BuildArtificiallyEndContainer", posOfFunc(m, t, "BuildArtificiallyEndContainer"), ok,
 			fmt.Sprintf("on a decoding error this container builder does `%s` but a regular end does `%s`: the completely decoded part of the container is dropped or handled differently when the document is truncated", art, end))
 	}
